@@ -68,7 +68,7 @@ if os.path.exists(mp):
     out.append(open(mp).read().split("\n\n", 2)[-1])
 hp = os.path.join(ROOT, "seeded", "_harmless", "RESULT.txt")
 out.append("\n### 0.4 False-alarm tests\n")
-out.append("* Seeds: `lib/seed_sweep.sh` runs every quick check under several `VERIF_SEED`s on the unchanged tree (seeds 1–5, 7, 11 and, per property, up to 14 seeds by its owner); checks whose verdict depended on the seed or on machine load were repaired (C20: wall-clock deadlines and goroutine-quiescence heuristics in the filter-API histories gave alarms when four checks ran at once: every 'did not happen' verdict now needs a 150 s wait plus scheduling-independent evidence, otherwise the case is skipped and counted; C11: the thorough tier met a removed duplicate validator sharing the proposer's consensus key; C12: an account number drawn by x/bank for a fresh ERC-20 recipient was read as the known finding's trace; C08: downstream effects of the known trace defect on other senders were classified as new). The thorough tier of all twenty checks passes on the unchanged tree.")
+out.append("* Seeds: `lib/seed_sweep.sh` runs every quick check under several `VERIF_SEED`s on the unchanged tree (seeds 1–3, 5, 6, 8–10 and 12–14 over all twenty checks after the last change to any driver, earlier 4, 7, 11, and per property up to 14 seeds by its owner); checks whose verdict depended on the seed or on machine load were repaired (C20: wall-clock deadlines and goroutine-quiescence heuristics in the filter-API histories gave alarms when four checks ran at once: every 'did not happen' verdict now needs a 150 s wait plus scheduling-independent evidence, otherwise the case is skipped and counted; C11: the thorough tier met a removed duplicate validator sharing the proposer's consensus key; C12: an account number drawn by x/bank for a fresh ERC-20 recipient was read as the known finding's trace; C08: downstream effects of the known trace defect on other senders were classified as new). The thorough tier of all twenty checks passes on the unchanged tree.")
 if os.path.exists(hp):
     lines = [l for l in open(hp).read().strip().split("\n") if l]
     ok = sum(1 for l in lines if " exit 0 0v" in l)
